@@ -481,6 +481,7 @@ func r3strlen(c *core.Ctx) {
 	}
 	const R = "R3.strlen"
 	c.Rule(R, "BIT/OCTET STRING length: n - lb only with a constrained size (ub < 64K); n itself with the general length determinant (encoder and decoder)")
+	decX := map[string]bool{}
 	for _, spec := range []struct {
 		fn     string
 		lenFn  string
@@ -645,6 +646,15 @@ func r3strlen(c *core.Ctx) {
 			case !general && o.lb == "0":
 				c.Fail(R, key, lenCall.Pos(), "a constrained size range (%s) is used with offset 0: X.691 10.9.3.3 sends n - lb (path: %s)", o.rng, clip(seen[o]))
 			default:
+				if !spec.encode {
+					// the bounds reach the determinant through a helper: the decoder half on the evaluator
+					if _, tried := decX[spec.fn]; !tried {
+						decX[spec.fn] = r3strlenDecX(c, R, spec.fn)
+					}
+					if decX[spec.fn] {
+						continue
+					}
+				}
 				c.SoftUndecided("%s: length determinant with range %s and offset %s not classified", spec.fn, o.rng, o.lb)
 			}
 		}
